@@ -195,6 +195,8 @@ void runScenario(const QJsonObject &scn)
     };
 
     std::vector<std::thread> threads;
+    const bool startTogether = scn["startTogether"].toBool();
+    std::atomic<int> arrivedAtStart { 0 };
     const QJsonArray pre = scn["pre"].toArray();        // ops of M before the producers start
     runScript("M", pre);
     for (int p = 1; p <= nprod; ++p) {
@@ -231,6 +233,11 @@ void runScenario(const QJsonObject &scn)
                 b["ms"] = nowRelMs();
                 emitLine(b);
                 jitter();
+                if (startTogether && i == 1) {
+                    // the very first message of a fresh logger, from all producers at the same instant
+                    arrivedAtStart.fetch_add(1);
+                    while (arrivedAtStart.load() < nprod) { }
+                }
                 Ctx::call(heap, file, line, func, cat, type, text,
                           [&](const QMessageLogContext &ctx, QtMsgType ty, const QString &tx) {
                               if (useLogger) {
